@@ -387,7 +387,7 @@ func initDesignateNotaryRoleAsLeaderTick(ctx context.Context, prm enableNotaryPr
 
 			var invalidSignatureCounter int
 
-			for i := range prm.committee[1:] {
+			for i := 1; i < len(prm.committee); i++ {
 				domain := designateNotarySignatureDomainForMember(i)
 
 				rec, err := lookupNNSDomainRecord(invkr, prm.nnsOnChainAddress, domain)
